@@ -422,6 +422,28 @@ fn foreign_node(rng: &mut Rng, d: &mut GenDoc, depth: usize, o: &TreeOpts, svg: 
         }
         return;
     }
+    if depth < o.max_depth && rng.chance(1, 14) {
+        // an element named after an integration point of the *other* vocabulary is an ordinary
+        // foreign element (`<svg><mi>`, `<math><title>`): CDATA stays CDATA inside it and elements
+        // with text-mode names stay ordinary elements whose content is markup
+        let n = if svg { rng.pick(&["mi", "mo", "mn", "ms", "mtext"]) } else { rng.pick(&["title", "desc", "foreignObject"]) };
+        d.push(FragKind::Foreign, tree_start(rng, n, false).as_bytes());
+        for _ in 0..rng.range(1, 2) {
+            match rng.below(3) {
+                0 => d.push(FragKind::Cdata, rng.pick(&["<![CDATA[ 1 > 0 <b>not markup</b> ]]>", "<![CDATA[><i a=b>]]>", "<![CDATA[</title><script>x//]]>"]).as_bytes()),
+                1 => {
+                    // (not `title` under SVG: there it is a real integration point, and `<a id=x/>` would
+                    // be an unclosed HTML element, outside the well-nested domain)
+                    let t = if svg { rng.pick(&["style", "script", "textarea", "xmp"]) } else { rng.pick(&["style", "script", "textarea", "xmp", "title"]) };
+                    let inner = rng.pick(&["<a id=x></a>", "<g class=foo>t</g>", "<a id=x/>"]);
+                    d.push(FragKind::Foreign, format!("<{t}>{inner}</{t}>").as_bytes());
+                }
+                _ => foreign_node(rng, d, depth + 1, o, svg),
+            }
+        }
+        d.push(FragKind::Foreign, format!("</{n}>").as_bytes());
+        return;
+    }
     match rng.below(10) {
         0 | 1 => d.push(FragKind::Text, b"ft"),
         2 => d.push(FragKind::Cdata, rng.pick(&["<![CDATA[x<y>z]]>", "<![CDATA[]]>", "<![CDATA[a]]b]]>", "<![CDATA[ 1 > 0 <b>not markup</b> ]]>", "<![CDATA[><i a=b>]]>"]).as_bytes()),
